@@ -40,6 +40,13 @@ def write_decls():
 
 
 def inst_C05(profile):
+    obs = _inst_C05(profile)
+    for o in obs:
+        o["sweep"] = 256      # each obligation sweeps (at least) the 256 byte values of one codec
+    return obs
+
+
+def _inst_C05(profile):
     obs = okb(profile, lift=True)
     for c, chk, thm in [("dna", "dna_check", "C05_dna_alphabet"), ("iupac", "iupac_check", "C05_iupac_nucleotide_sets"),
                         ("amino", "amino_check", "C05_amino_codons"), ("text", "text_check", "C05_text_literal_bytes"),
